@@ -90,19 +90,100 @@ def life_oracle(cid, c, out, fails, bump):
             return
 
 
+def msg_type(tree):
+    return tree[1:].split(" ", 1)[0]
+
+
+def net_oracle(cid, c, out, fails, bump, notes):
+    """two real Transports over loopback HTTP (real streamWriter / streamReader with re-dials, pipeline, snapshot
+       sender and handlers): what the receiver's Raft.Process gets in every phase is exactly what was handed to the
+       sender's Transport in that phase — MsgApp in order, the other stream messages in order, the snapshots as a
+       multiset — and the snapshot file arrives byte for byte; nothing is reported unreachable"""
+    phases = split_items(c[4])
+    bump("T-phases=%d" % len(phases))
+    if "timeout-connect" in out or "timeout-redial" in out:
+        notes.append("case %s inconclusive: the two in-process transports did not (re)connect in time: %s" % (cid, out[:80]))
+        bump("T-inconclusive")
+        return
+    parts = out.split(" | ")
+    if not parts[0].startswith("unreach=") or not parts[-1].startswith("snapdb="):
+        fails.append(dict(name="net-" + cid, cid=cid, what="transport harness output: " + out[:200]))
+        return
+    got_phases = parts[1:-1]
+    for i, ph in enumerate(phases):
+        msgs = split_items(ph)
+        want_app = "(" + " ".join(m for m in msgs if msg_type(m) == "3") + ")"
+        want_other = "(" + " ".join(m for m in msgs if msg_type(m) not in ("3", "7")) + ")"
+        want_snap = "(" + " ".join(sorted(m for m in msgs if msg_type(m) == "7")) + ")"
+        bump("T-app", len([m for m in msgs if msg_type(m) == "3"]))
+        bump("T-other", len([m for m in msgs if msg_type(m) not in ("3", "7")]))
+        bump("T-snap", len([m for m in msgs if msg_type(m) == "7"]))
+        want = "app=%s other=%s snap=%s" % (want_app, want_other, want_snap)
+        if i >= len(got_phases) or got_phases[i] != want:
+            g = got_phases[i] if i < len(got_phases) else "<phase not reached>"
+            what = "phase %d of %d (after %d re-dials): what the receiving Raft got differs from what was sent" % (i, len(phases), i)
+            if g.endswith(" timeout"):
+                what += " (messages missing after the deadline)"
+            fails.append(dict(name="net-" + cid, cid=cid, what=what))
+            return
+    if parts[0] != "unreach=0":
+        fails.append(dict(name="net-" + cid, cid=cid, what="the sender reported messages unreachable on a stable connection: " + parts[0]))
+        return
+    db = c[5]
+    if db not in ("-", "") and parts[-1] != "snapdb=" + db:
+        fails.append(dict(name="net-" + cid, cid=cid, what="the snapshot file did not arrive as sent"))
+
+
+def handler_oracle(cid, c, out, fails, bump):
+    """the pipeline / snapshot handlers on a body that ends early: with an HTTP-level short body nothing is handed to
+       raft; the complete body delivers the message (and the snapshot file) as sent; on the snapshot path a cleanly
+       truncated body is refused or delivers the same message with a prefix of the file — never another message"""
+    kind = c[1]
+    want_msg = split_items(c[4])[0]
+    dbtok, _cuts = c[5].split(" ", 1)
+    is_snap_type = msg_type(want_msg) == "7"
+    res = out.split(" | ")
+    full_k = max(int(r.split("/", 1)[0]) for r in res)
+    for r in res:
+        head, val = r.split("=", 1)
+        k, s = head.split("/")
+        bump("H-%s-%s" % (kind, "short" if s == "1" else ("full" if int(k) == full_k else "cut")))
+        if val == "panic":
+            fails.append(dict(name="hand-" + cid, cid=cid, what="handler panics on a body cut at %s" % k))
+            return
+        if s == "1" and val != "rej":
+            fails.append(dict(name="hand-" + cid, cid=cid, what="%s handler processed a message from a body net/http reported short (cut %s)" % (kind, k)))
+            return
+        if s == "0" and int(k) == full_k:
+            want = "msg:" + want_msg + ((" db:" + dbtok) if kind == "snap" else "")
+            if kind == "snap" and not is_snap_type:
+                want = "rej"
+            if val != want:
+                fails.append(dict(name="hand-" + cid, cid=cid, what="%s handler: the complete body does not deliver the message as sent" % kind))
+                return
+        elif s == "0" and kind == "snap" and val != "rej":
+            if not val.startswith("msg:" + want_msg + " db:"):
+                fails.append(dict(name="hand-" + cid, cid=cid, what="snapshot handler: a truncated body delivers a different message (cut %s)" % k))
+                return
+
+
 def oracle(cases, impl):
     """The property evaluated on the implementation's outputs only:
        (1) a well-formed sequence is decoded to exactly the sequence that was encoded, then a clean EOF;
        (2) every truncated stream decodes to a prefix of what the whole stream decodes to, followed by an
            error (EOF / unexpected EOF, or the very error the whole stream ends with) — never another message;
        (3) no stream makes a codec panic;
+       (5) T / H cases: net_oracle, handler_oracle;
        (4) through the real streamWriter: every connection's bytes decode, with a fresh decoder, to exactly the
            messages written to that connection (life_oracle)."""
     fails = []
     hist = {}
 
-    def bump(k):
-        hist[k] = hist.get(k, 0) + 1
+    notes = []
+
+    def bump(k, n=1):
+        if n:
+            hist[k] = hist.get(k, 0) + n
 
     for cid, c in cases.items():
         kind, codec, payload = c[0], c[1], c[4]
@@ -112,6 +193,12 @@ def oracle(cases, impl):
             continue
         if kind == "L":
             life_oracle(cid, c, out, fails, bump)
+            continue
+        if kind == "T":
+            net_oracle(cid, c, out, fails, bump, notes)
+            continue
+        if kind == "H":
+            handler_oracle(cid, c, out, fails, bump)
             continue
         m = OUT_RE.match(out)
         if not m:
@@ -147,6 +234,7 @@ def oracle(cases, impl):
                     fails.append(dict(name="trunc-" + cid, cid=cid, signature=PANIC_SIG if (cerr == "panic" and codec == "v2") else None,
                                       what="truncation at %s decodes %s messages, err=%s, prefix-of-full=%s" % (rng, cnt, cerr, same)))
                     break
+    oracle.notes = notes
     return fails, hist
 
 
@@ -154,8 +242,10 @@ def nontrivial(c):
     # a sequence with >= 2 messages, or a raw stream of >= 9 bytes
     if c[0] == "S":
         return count_msgs(c[4]) >= 2
-    if c[0] == "L":
+    if c[0] in ("L", "T"):
         return len(split_items(c[4])) >= 2
+    if c[0] == "H":
+        return True
     return len(c[4]) > 18
 
 
@@ -207,9 +297,9 @@ def run(ctx):
                             f.write(line if line.endswith("\n") else line + "\n")
             runs.append(("corpus", "-replay %s" % path))
         if quick:
-            runs.append(("fresh", "-seed %d -n 120 -nraw 300 -nall 24 -nbig 2 -exh 3 -nlife 40" % ctx.seed))
+            runs.append(("fresh", "-seed %d -n 120 -nraw 300 -nall 24 -nbig 2 -exh 3 -nlife 40 -nnet 12 -nhand 16" % ctx.seed))
         else:
-            runs.append(("fresh", "-seed %d -n 1500 -nraw 6000 -nall 600 -nbig 6 -bigcuts full -exh 5 -nlife 600" % ctx.seed))
+            runs.append(("fresh", "-seed %d -n 1500 -nraw 6000 -nall 600 -nbig 6 -bigcuts full -exh 5 -nlife 600 -nnet 150 -nhand 300" % ctx.seed))
 
     all_mism, all_fail, total, hist_all, samples, distinct = [], [], 0, {}, [], set()
     for sub, args in runs:
@@ -221,6 +311,7 @@ def run(ctx):
         cases = parse_cases(os.path.join(d, "cases.tsv"))
         impl, _ = vlib.read_out(os.path.join(d, "impl.out"))
         fails, hist = oracle(cases, impl)
+        ctx.notes.extend(getattr(oracle, "notes", [])[:5])
         for f in fails:
             cid = f.pop("cid")
             f["case"] = dict(cases_tsv=["\t".join([cid] + cases.get(cid, []))][:1], impl=(impl.get(cid) or "")[:2000])
@@ -240,7 +331,7 @@ def run(ctx):
 
     def search():
         # larger generation judged by the direct oracle only
-        d2, err, _ = run_both(ctx, "search", "-seed %d -n 600 -nraw 3000 -nall 100 -nbig 2 -exh 4 -nlife 400" % (ctx.seed + 1000003))
+        d2, err, _ = run_both(ctx, "search", "-seed %d -n 600 -nraw 3000 -nall 100 -nbig 2 -exh 4 -nlife 400 -nnet 60 -nhand 100" % (ctx.seed + 1000003))
         if d2 is None:
             return []
         cases = parse_cases(os.path.join(d2, "cases.tsv"))
